@@ -245,3 +245,37 @@ func (w *WS) Frames() (frames []Frame, rest int) {
 	}
 	return frames, len(b)
 }
+
+// Listener is a scripted net.Listener: Accept blocks the managed thread until the
+// harness queues a connection or the listener is closed.
+type Listener struct {
+	mu     sync.Mutex
+	queue  []net.Conn
+	closed bool
+	Addr_  string
+}
+
+func (l *Listener) Push(c net.Conn) { l.mu.Lock(); l.queue = append(l.queue, c); l.mu.Unlock() }
+func (l *Listener) ready() bool {
+	l.mu.Lock()
+	defer l.mu.Unlock()
+	return len(l.queue) > 0 || l.closed
+}
+func (l *Listener) Accept() (net.Conn, error) {
+	if s := vsched.Active(); s != nil && !s.Aborted() {
+		if !l.ready() {
+			s.Block("accept "+l.Addr_, l.ready)
+		}
+	}
+	l.mu.Lock()
+	defer l.mu.Unlock()
+	if len(l.queue) > 0 {
+		c := l.queue[0]
+		l.queue = l.queue[1:]
+		return c, nil
+	}
+	return nil, ErrClosed
+}
+func (l *Listener) Close() error   { l.mu.Lock(); l.closed = true; l.mu.Unlock(); return nil }
+func (l *Listener) Closed() bool   { l.mu.Lock(); defer l.mu.Unlock(); return l.closed }
+func (l *Listener) Addr() net.Addr { return addr(l.Addr_) }
